@@ -27,6 +27,10 @@ func main() {
 	files["GenTables.v"] = genTables()
 	files["GenStruct.v"] = genStruct()
 	files["GenTyped.v"] = genTyped()
+	if err := os.MkdirAll(*out, 0o755); err != nil { // a fresh checkout has no Gen directory (its files are generated)
+		fmt.Fprintln(os.Stderr, "vtrans:", err)
+		os.Exit(2)
+	}
 	for name, content := range files {
 		p := filepath.Join(*out, name)
 		old, err := os.ReadFile(p)
